@@ -14,7 +14,11 @@
          corresponding slice -- every selected record once, in the stated
          order -- also for logs shorter than the requested count
      P4  len(reader) is the number of records, whenever it is asked
-     P5  the same for .zst, .gz, plain and stdin input (the log opens)
+     P5  the same for .zst, .gz, plain and stdin input (the log opens);
+         ".zst" / ".gz" input is any valid file of that format -- one or
+         SEVERAL zstd frames / gzip members (logs of several runs joined
+         with cat, pzstd output): `log` is then what the runs logged, one
+         run after the other, and P1-P4 apply to that sequence unchanged
 
    A record is [id, prio]: `id` is the harness' injective name of the tuple
    (text, level, tags, timestamp, trace class) -- written records get 1..N in
